@@ -59,7 +59,8 @@ RULE = ("one python expression (depth <= 4, thorough <= 5) per case over a rando
         "half of the cases create the sub-variables in an order different from the md-grid order; strata (counted in the evidence): "
         "size-0 operands (md-variable over no grid, empty arrays, matrices without rows/columns), all stored values scaled by "
         "2^+-20, one sub-expression object repeated (x-x, x/x, ...), sum_operator_list of 1-4 operators, the same operator several "
-        "times in one evaluate call; every case is also evaluated through Operator.value_and_jacobian / Operator.value and with "
+        "times in one evaluate call, whole-expression shifts (previous_timestep/iteration(k), nested, pp.ad.time_increment, pp.ad.dt) "
+        "of composite trees with two different wrapped functions and the same one twice on the same argument sub-tree; every case is also evaluated through Operator.value_and_jacobian / Operator.value and with "
         "state=None resolved by the model; type-directed (sizes fit) with ~10 % "
         "ill-typed nodes (size mismatch with both sizes >= 2, wrong kinds) and shifts beyond the stored indices; values are small "
         "dyadic rationals, state entries non-zero. non-trivial = the expression has a binary node whose left operand parses to an "
@@ -283,6 +284,10 @@ class World:
             return OPS[e["op"]](self.build(e["a"]), self.build(e["b"]))
         if k == "sum":
             return pp.ad.sum_operator_list([self.build(x) for x in e["xs"]])
+        if k == "tinc":
+            return pp.ad.time_increment(self.build(e["a"]))
+        if k == "dt":
+            return pp.ad.dt(self.build(e["a"]), pp.ad.Scalar(fl(e["c"])))
         if k == "neg":
             return -self.build(e["a"])
         if k == "pt":
@@ -315,8 +320,8 @@ class World:
         if k == "raw":
             r = e["r"]
             return {"k": "raw", "r": ({"k": "sp", "nc": r["nc"], "rows": r["rows"]} if r["k"] == "sp" else r)}
-        if k == "sum":  # pp.ad.sum_operator_list = reduce(a + b): the model gets the left fold of `+`
-            return self.lean_expr(_sum_fold(e))
+        if k in SUGAR:  # the model gets what these helpers are specified to build
+            return self.lean_expr(_desugar(e))
         out = dict(e)
         for c in ("a", "b"):
             if c in e:
@@ -330,6 +335,20 @@ def _sum_fold(e):
     for x in xs[1:]:
         out = {"k": "bin", "op": "add", "a": out, "b": x}
     return out
+
+
+SUGAR = ("sum", "tinc", "dt")
+
+
+def _desugar(e):
+    """what the helper functions of porepy are specified to build: sum_operator_list = left fold of +,
+    pp.ad.time_increment(a) = a - a.previous_timestep(), pp.ad.dt(a, c) = time_increment(a) / c"""
+    if e["k"] == "sum":
+        return _sum_fold(e)
+    inc = {"k": "bin", "op": "sub", "a": e["a"], "b": {"k": "pt", "steps": 1, "a": e["a"]}}
+    if e["k"] == "tinc":
+        return inc
+    return {"k": "bin", "op": "div", "a": inc, "b": {"k": "scalar", "c": e["c"]}}
 
 
 # ----------------------------------------------------------------------------- bodies of pp.ad.Function
@@ -731,6 +750,10 @@ def _obin(op, l, r):
 
 def _shift(e, kind, steps):
     """the expression `e.previous_timestep(steps)` / `.previous_iteration(steps)`, leaves carrying their indices"""
+    if e["k"] in SUGAR:
+        e = _desugar(e)
+    if e["k"] in ("pt", "pi"):  # a nested shift: apply the inner one first
+        e = _shift(e["a"], e["k"], e["steps"])
     k = e["k"]
     if k == "var":
         t, i = e.get("t", -1), e.get("i", -1)
@@ -747,8 +770,6 @@ def _shift(e, kind, steps):
     for c in ("a", "b"):
         if c in e:
             out[c] = _shift(e[c], kind, steps)
-    if k == "sum":
-        out["xs"] = [_shift(x, kind, steps) for x in e["xs"]]
     return out
 
 
@@ -808,8 +829,8 @@ def _oeval(w, e, deriv):
             m = l.val
             return OV("v", m @ np.full(m.shape[1], r.val))
         return _obin(e["op"], l, r)
-    if k == "sum":
-        return _oeval(w, _sum_fold(e), deriv)
+    if k in SUGAR:
+        return _oeval(w, _desugar(e), deriv)
     if k in ("neg", "pt", "pi", "f1", "f2") and (e["a"]["k"] == "raw" or (k == "f2" and e["b"]["k"] == "raw")):
         raise Skip()  # python applies these to a plain number / array, no operator is involved
     if k == "neg":
@@ -886,10 +907,10 @@ def _has_current_var(e, shifted=False):
     k = e["k"]
     if k == "var":
         return not shifted
+    if k in SUGAR:
+        return _has_current_var(_desugar(e), shifted)
     if k in ("pt", "pi"):
         return _has_current_var(e["a"], True)
-    if k == "sum":
-        return any(_has_current_var(x, shifted) for x in e["xs"])
     return any(_has_current_var(e[c], shifted) for c in ("a", "b") if c in e)
 
 
@@ -1340,11 +1361,18 @@ def _has_raw_pair(e):
     return any(_has_raw_pair(e[c]) for c in ("a", "b") if c in e and isinstance(e[c], dict))
 
 
-STRATA = ["normal"] * 11 + ["empty", "empty", "scale", "scale", "repeat", "repeat", "sum", "sum", "dup-list"]
+STRATA = ["normal"] * 11 + ["shift-fn"] * 3 + ["empty", "empty", "scale", "scale", "repeat", "repeat", "sum", "sum", "dup-list"]
 
 
 def _scale(vec, k):
     return [frac(Fraction(x) * Fraction(2) ** k) for x in vec]
+
+
+def _fnodes(f):
+    yield f
+    for c in ("a", "b"):
+        if c in f:
+            yield from _fnodes(f[c])
 
 
 def _stratum_expr(rng, g, case, stratum):
@@ -1372,6 +1400,56 @@ def _stratum_expr(rng, g, case, stratum):
         if rng.random() < 0.5:
             e = {"k": "bin", "op": rng.choice(["sub", "add", "mul"]), "a": e, "b": x}
         return e
+    if stratum == "shift-fn":
+        # a composite tree with two DIFFERENT wrapped functions (and the same one twice) of the same argument sub-tree,
+        # shifted as a whole (previous_timestep / previous_iteration / time_increment / dt, also nested)
+        x = g.vec_leaf(n) if rng.random() < 0.6 else g.vec(n, 1)
+        while x["k"] in ("pt", "pi"):
+            x = x["a"]
+        two = rng.random() < 0.3
+        y = g.vec_leaf(n)
+        while y["k"] in ("pt", "pi"):
+            y = y["a"]
+
+        def fn(body, diag=None):
+            e = {"k": "f2", "f": body, "a": x, "b": y} if two else {"k": "f1", "f": body, "a": x}
+            if diag:
+                e["diag"] = diag
+            return e
+
+        bodies = []
+        while len(bodies) < 2:
+            b = g.fexpr(2, two)
+            if b not in bodies and any(nd.get("k") == "x" for nd in _fnodes(b)):
+                bodies.append(b)
+        fa, fb, fa2 = fn(bodies[0]), fn(bodies[1]), fn(bodies[0])
+        if rng.random() < 0.25:  # two DiagonalJacobianFunctions that differ in their multipliers only
+            fb = fn(bodies[0], [rv(rng, 0.0)] + ([rv(rng, 0.0)] if two else []))
+            fa = fn(bodies[0], [rv(rng, 0.0)] + ([rv(rng, 0.0)] if two else []))
+        q = g.vec_leaf(n)
+        while q["k"] in ("pt", "pi"):
+            q = q["a"]
+        form = rng.randrange(4)
+        if form == 0:
+            comp = {"k": "bin", "op": "add", "a": {"k": "bin", "op": "mul", "a": fa, "b": q}, "b": {"k": "bin", "op": "mul", "a": {"k": "scalar", "c": "5/2"}, "b": fb}}
+        elif form == 1:
+            comp = {"k": "bin", "op": "sub", "a": fa, "b": fb}
+        elif form == 2:
+            comp = {"k": "bin", "op": "add", "a": {"k": "bin", "op": "mul", "a": fa, "b": fa2}, "b": fb}
+        else:
+            comp = {"k": "sum", "xs": [fa, fb, fa2]}
+        w = rng.random()
+        if w < 0.3:
+            return {"k": "pt", "steps": rng.choice([1, 1, 2]), "a": comp}
+        if w < 0.5:
+            return {"k": "pi", "steps": rng.choice([1, 1, 2]), "a": comp}
+        if w < 0.65:
+            return {"k": "tinc", "a": comp}
+        if w < 0.8:
+            return {"k": "dt", "a": comp, "c": rng.choice(["1/2", "2", "1/4"])}
+        if w < 0.9:
+            return {"k": "pt", "steps": 1, "a": {"k": "pt", "steps": 1, "a": comp}}
+        return {"k": "bin", "op": "sub", "a": comp, "b": {"k": "pi", "steps": 1, "a": comp}}
     if stratum == "sum":
         return {"k": "sum", "xs": [g.vec(n, rng.choice([0, 1, 2])) for _ in range(rng.randint(1, 4))]}
     return None
